@@ -42,6 +42,14 @@ CLAIMED.update({
         design="DESIGN.md section 5, C12"),
 })
 
+CLAIMED.update({
+    "C10": dict(
+        text="Kani (CBMC, bit-precise, full i32 domain, loop-free: complete) on the real bodies of the constant calculator's operator closures: every binary/unary operator returns the C value wherever C defines it in 32-bit int and an error (no panic, no wrapped value) elsewhere, failed operands propagate, division by zero is located at the operator; the three operator tables handed to the Pratt parser are run verbatim against a recording shim and compared with the ISO C precedence/associativity table. Counterexamples are lifted to constant initialisers and replayed on the real compiler.",
+        note="pest PrattParser semantics assumed (A-pratt); oracle = C semantics written as i64 arithmetic / C99 division definition in the harness; sizeof, integer-literal parsing and the generator's folding arms are not under contract yet; ternary sentinel collision is a recorded known finding.",
+        technique="contract-style full-domain model checking of extracted loop-free code (Kani harness per operator obligation) + verbatim table extraction",
+        design="DESIGN.md section 5, C10"),
+})
+
 NOT_APPLICABLE = {
     "C11": "no contract within reach: the property is about the comment/splice scanner in cpp::process (str::split*/byte slicing without vstd specifications), pest WHITESPACE/COMMENT rules (generated parser) and a relation between two whole compilations",
 }
